@@ -109,6 +109,9 @@ class Faulty(System):
         return {"s": self.base.init(cfg["base"]), "n": 0, "faults": 0}
 
     def alphabet(self, cfg, state, pos):
+        script = cfg.get("script", ())
+        if state["n"] < len(script):  # the base task's own prefix (set-up calls / root split) comes first, fault-free
+            return [["ev", script[state["n"]]]]
         evs = [["ev", e] for e in self.base.alphabet(cfg["base"], state["s"], state["n"])]
         if state["faults"] < cfg["k"] and evs:
             evs += [["fault", k] for k in kinds_for(find_detector(state["s"]))]
@@ -186,9 +189,10 @@ def derive(mod, tasks, tier):
             while d > 2 and (max(s, 2) ** d) * (1 + 2 * (d + 1)) ** k > nodes * 2:
                 d -= 1
             cid = pairs._cid(t["cfg"])
-            cfg = {"id": "faulty:%s" % cid, "base": t["cfg"], "k": k}
+            script = list(t.get("prefix", ()))
+            cfg = {"id": "faulty:%s" % cid, "base": t["cfg"], "k": k, "script": script}
             out.append({
-                "system": PREFIX + name, "cfg": cfg, "prefix": [], "depth": d + k,
+                "system": PREFIX + name, "cfg": cfg, "prefix": [], "depth": d + k + len(script),
                 "label": "%s%s|%s|k%d|d%d" % (PREFIX, name, cid, k, d + k),
                 "cost": 0.5 * t.get("cost", 1), "validate_every": t.get("validate_every", 997), "pair": True,
             })
